@@ -13,6 +13,9 @@ CHECKS = {
  "C05": ("exploration", "bounded-exhaustive enumeration of accepted programs; output parsed by an independent SQL statement reader", "DESIGN.md §4 C05",
          "Every successful Compile over all lexeme sequences up to L tokens (three alphabets), all corruptions of the grammar corpus, the corpus in several layouts and expression trees up to N nodes is lexed under both rule sets and parsed as `[WITH ...] select ;`; table references, CTE order, name uniqueness and CTE use are checked.",
          "sqlx reads a superset of what pql emits; tables named in the source = identifier token values"),
+ "C06": ("exploration", "bounded-exhaustive enumeration of let sequences x value shapes x parameter maps x use sites against a reference interpreter with lexical scoping", "DESIGN.md §4 C06",
+         "Every let sequence up to k bindings (chains, shadowing, names colliding with columns/constants/parameters) x 13 value shapes x 5 parameter maps x 35 use sites is compiled; the SQL at the use site is evaluated over all valuations of columns and placeholders and compared with lexical-scope substitution on the generator's tree; text laws cover unused bindings, lets after the query and all non-use sites.",
+         "parameter snippets are atomic placeholders; primitive semantics shared with C01"),
  "C07": ("exploration", "bounded-exhaustive enumeration of grammar derivations x layouts against the generator's prescribed tree", "DESIGN.md §4 C07",
          "Every expression tree over 24 node kinds up to N internal nodes (minimal, full and redundant parentheses), every operator production with every combination of optional parts, all two-operator pipelines over representatives, lets and empty statements, each in uniform, one-gap-at-a-time and (short programs) all separator assignments over 6 separators, is parsed by the real parser and compared field by field with the tree the grammar prescribes.",
          "generator's grammar (DESIGN.md §1) is the documented grammar; printer validated by the reference tokenizer"),
